@@ -132,7 +132,8 @@ def handle (args : List Nat) : String :=
       -- model
       let c := chunks.foldl feed Cache.new
       let mCache := s!"nl {joinNats c.newlines} tr {c.trailing}"
-      let mLines := (List.range (len + 2)).map (fun b => optNat (byteToLineNum c b))
+      let mLines := (List.range (len + 2)).map (fun b =>
+        optNat (byteToLineNum c b) ++ ":" ++ optNat (byteToLineByte c b))
       let mCols := bs.map (fun (_, b) =>
         match byteToLineCol c s b with
         | none => "P"
@@ -145,7 +146,7 @@ def handle (args : List Nat) : String :=
       let L := 0 :: nlsFrom 0 s
       let sCache := s!"nl {joinNats L} tr {trailingFrom 0 s}"
       let sLines := (List.range (len + 2)).map (fun b =>
-        if b ≤ len then toString (1 + nlBefore 0 s b) else "N")
+        if b ≤ len then s!"{1 + nlBefore 0 s b}:{lineStartOf L b}" else "N:N")
       let sCols := bs.map (fun (i, _) =>
         let pre := s.take i
         let post := s.drop i
